@@ -158,9 +158,13 @@ def is_filter_empty(filter_like: Filter) -> bool:
   if isinstance(filter_like, bool):
     return not filter_like
   if isinstance(filter_like, DenyList):
+    deny = filter_like.deny
+    if isinstance(deny, DenyList):
+      # a denied DenyList matches everything only if its own deny filter is empty.
+      return is_filter_empty(deny.deny)
     # if any arbitrary collection is in the denylist it matches everything so
     # the filter is empty. This is checked with a stub.
-    return in_filter(filter_like.deny, '__flax_internal_stub__')
+    return in_filter(deny, '__flax_internal_stub__')
   raise errors.InvalidFilterError(filter_like)
 
 
